@@ -15,7 +15,7 @@ RULE = (
     "The index is applied to the dense reference first: only indices torch accepts are kept. Non-trivial: index not all-':' and "
     "operator not a bare Dense. Distinct by (class path, index kind per position, debug flag) - i.e. cells, not examples."
 )
-BUDGET = {"quick": 2500, "thorough": 7000}
+BUDGET = {"quick": 1800, "thorough": 6000}
 ASSUMPTIONS = [
     "boolean masks, None and negative steps are not generated (not in the statement / rejected by torch)",
     "negative entries inside index tensors are generated as a separately labelled sub-domain (neg_tensor_entries)",
@@ -29,7 +29,9 @@ def _open_triggers():
 
 
 def _exclusions():
-    ex = set()
+    # multi-output kernels explicitly decline non-slice / unaligned indices ("does not accept non-slice indices"):
+    # they are exercised by C01, not here
+    ex = {"Kernel.multitask"}
     for e in load_findings():
         if e.get("status", "open") == "open":
             ex.update(e.get("exclude_nodes", []))
@@ -202,7 +204,7 @@ def cases(draw, tier):
     shape = refmodel.shape(r)
     trig = _open_triggers()
     case = {"recipe": r, "debug": draw(st.sampled_from([True, True, False]))}
-    if shape[-1] == shape[-2] and draw(st.integers(0, 7)) == 0:
+    if shape[-1] == shape[-2] and draw(st.integers(0, 7)) == 0 and not ("kron_nonsquare_factor" in trig and _kron_nonsquare(r)):
         case["diag"] = True
     else:
         case["index"] = draw(indices(shape, neg_tensor="neg_tensor_entries" not in trig, neg_int_matrix="neg_int_matrix" not in trig))
@@ -265,7 +267,7 @@ def check(case):
     except Violation:
         raise
     except Exception as e:
-        if X.is_declined(e, "getitem"):
+        if X.is_declined(e, opk):
             return {"nontrivial": False, "labels": ["declined", "declined:%s:%s" % (head, str(e)[:60])], "key": "declined"}
         fail("exc:" + X.describe(e), "raised %r" % (e,))
     finally:
@@ -282,10 +284,14 @@ def check(case):
                 fail("value", "pure-selection operator returned %r, dense[index] is %r (flat %d)" % (res.reshape(-1)[i].item(), expect.reshape(-1)[i].item(), i))
         else:
             Sb = S + (mag.abs().max() * 1e-3 if mag.numel() else 0.0)
-            if any(n["op"] == "Mul" for n in R.walk(r)):
+            mul = any(n["op"] == "Mul" for n in R.walk(r))
+            if mul:
                 Sb = torch.full_like(Sb, float(mag.max())) * tol.root_slack(dtname, ref.shape[-1])
             extra = 8.0 if any(n["op"] == "Toeplitz" for n in R.walk(r)) else 1.0
             bound = tol.exact_bound(Sb, dtname, max(ref.shape[-2:]), R.depth(r), extra)
+            if mul:
+                # psd_safe_cholesky jitter is absolute, not relative to the operand's magnitude
+                bound = bound + 16.0 * tol.JITTER_MAX[dtname] * (1.0 + float(mag.max()))
             ratio, i = tol.worst_excess(res, expect, bound)
             if ratio > 1.0:
                 fail("value", "max |lib-ref|/bound = %.3g (lib=%r ref=%r flat %s)" % (ratio, res.reshape(-1)[i].item(), expect.reshape(-1)[i].item(), i))
@@ -298,6 +304,16 @@ def check(case):
         "labels": labels,
         "sample": {"recipe": R.class_path(r), "shape": list(ref.shape), "index": case.get("index", "diagonal()"), "debug": case["debug"]},
     }
+
+
+def _kron_nonsquare(r):
+    for n in R.walk(r):
+        if n["op"] == "Kronecker":
+            for a in n["args"]:
+                shp = refmodel.shape(a)
+                if shp[-1] != shp[-2]:
+                    return True
+    return False
 
 
 def _trig(name):
@@ -324,6 +340,9 @@ TRIGGERS = {
     "has_BatchRepeat": _has_class("BatchRepeat"),
     "has_Cat": _has_class("Cat"),
     "has_BlockDiag": _has_class("BlockDiag"),
+    "has_BlockInterleaved": _has_class("BlockInterleaved"),
+    "has_TransposePermutation": _has_class("TransposePermutation"),
+    "kron_nonsquare_factor": lambda case: _kron_nonsquare(case["recipe"]),
 }
 
 
